@@ -187,9 +187,16 @@ class C18(CheckBase):
                     if cmd[0] == "cat" and base.status == 0:
                         try:
                             a = cat_content(base.stdout)
+                        except ValueError:
+                            # a catalogue of arbitrary bytes (hostile image, blank side taken for a disc): names with
+                            # blanks cannot be told apart from the layout -- not judged
+                            v.skipped = "baseline-cat-not-parseable"
+                            continue
+                        try:
                             b = cat_content(r.stdout)
                         except ValueError as ex:
-                            v.fail("C18/cat-parse", "cannot parse cat output: %s" % ex, r.brief())
+                            v.fail("C18/cat-parse", "cat output with --ui %s COLUMNS=%s cannot be parsed although the "
+                                   "baseline's can: %s" % (ui, cols, ex), r.brief())
                             continue
                         if a != b:
                             diff = [k for k in a if a[k] != b[k]]
